@@ -7,6 +7,7 @@ import (
 	"sync"
 
 	"seehuhn.de/go/sfnt"
+	"seehuhn.de/go/sfnt/glyf"
 	"seehuhn.de/go/sfnt/post"
 )
 
@@ -39,6 +40,13 @@ const (
 	// Write rounds it into the post table it creates, the next Read takes the
 	// post value.
 	sigCFFUnderline = "cff-without-post-table:fractional-underline-rounds-on-second-read"
+
+	// A glyph name longer than 255 bytes: post.Encode stores byte(len(name)) as
+	// the length of the Pascal string and all the bytes of the name, so the
+	// string data no longer parses; Write reports no error and sfnt.Read
+	// rejects the file it wrote (when the name is the last one it comes back
+	// cut to len mod 256 bytes instead).
+	sigLongName    = "post-format2-glyph-name-longer-than-255-bytes:written-file-rejected-by-read"
 	maxCustomNames = 65536 - 258
 )
 
@@ -146,8 +154,28 @@ func weightBoldFinding(f0, f1 *sfnt.Font, fields []string) bool {
 // finding it is an instance of, or "" when it is not a recorded finding.
 func knownSignature(f *failure) string {
 	switch f.sig {
-	case sigWeightBold, sigEpoch1904, sigPostNames, sigCFFUnderline:
+	case sigWeightBold, sigEpoch1904, sigPostNames, sigCFFUnderline, sigLongName:
 		return f.sig
 	}
 	return ""
+}
+
+// longNameFinding: the recorded input class of sigLongName - TrueType outlines
+// with a glyph name of more than 255 bytes, the file rejected in the post table.
+func longNameFinding(f *sfnt.Font, err error) bool {
+	o, ok := f.Outlines.(*glyf.Outlines)
+	if !ok || err == nil || !strings.Contains(err.Error(), "post") {
+		return false
+	}
+	return hasLongName(o.Names)
+}
+
+// hasLongName: a glyph name a format-2 post table cannot hold.
+func hasLongName(names []string) bool {
+	for _, n := range names {
+		if len(n) > 255 {
+			return true
+		}
+	}
+	return false
 }
